@@ -65,3 +65,44 @@ Definition att_job (removes : list akey) (adds : list (bool * akey * Z)) (copies
           end
       end
   end.
+
+(* ------------------------------------------------------------------------------------------
+   The helper API (QPDFEmbeddedFileDocumentHelper / QPDFFileSpecObjectHelper), as a history over
+   two documents: A (the one under test) and B (a source to copy from).  replaceEmbeddedFile
+   "adds or replaces" -- whatever file specification is handed in, including the one already
+   stored under that key; a record id stands for a file specification with its payload, /Size,
+   checksum, dates, MIME type, description and file names. *)
+Inductive att_op :=
+| APut (k : akey) (rid : Z)        (* replaceEmbeddedFile(k, new file spec)          *)
+| APutSame (k : akey)              (* fs = getEmbeddedFile(k); replaceEmbeddedFile(k, *fs) *)
+| AMod (k : akey) (rid' : Z)       (* get; setDescription/setFilename; put back: the record becomes rid' *)
+| ARemove (k : akey)               (* removeEmbeddedFile(k)                          *)
+| BPut (k : akey) (rid : Z)        (* add to the source document                     *)
+| ACopy (prefix : akey)            (* for every attachment of B: copyForeignObject + replaceEmbeddedFile(prefix ++ key) *)
+| AReread.                         (* write A, read it back                          *)
+
+Fixpoint att_copy_all (prefix : akey) (src : amap) (m : amap) : amap :=
+  match src with
+  | [] => m
+  | (k, rid) :: src' => att_copy_all prefix src' (a_ins (prefix ++ k) rid m)
+  end.
+
+(* result of a step: did the call report success (removeEmbeddedFile's bool; true otherwise) *)
+Definition att_step (op : att_op) (ab : amap * amap) : bool * (amap * amap) :=
+  let '(a, b) := ab in
+  match op with
+  | APut k rid => (true, (a_ins k rid a, b))
+  | APutSame k => (a_has k a, (match a_at k a with Some (_, rid) => a_ins k rid a | None => a end, b))
+  | AMod k rid' => (a_has k a, (if a_has k a then a_ins k rid' a else a, b))
+  | ARemove k => (a_has k a, (a_del k a, b))
+  | BPut k rid => (true, (a, a_ins k rid b))
+  | ACopy prefix => (true, (att_copy_all prefix b a, b))
+  | AReread => (true, (a, b))
+  end.
+
+Fixpoint att_hist (ops : list att_op) (ab : amap * amap) (acc : list (bool * amap)) : list (bool * amap) :=
+  match ops with
+  | [] => rev' acc
+  | op :: ops' => let '(r, ab') := att_step op ab in att_hist ops' ab' ((r, fst ab') :: acc)
+  end.
+Definition att_hist_run (ops : list att_op) : list (bool * amap) := att_hist ops ([], []) [].
